@@ -44,7 +44,8 @@ Section SolverD.
      constraint is either skipped because flagged enforced, or passes on s', c passes on s'.
      (For built-ins: flagged enforced => guaranteed by membership in the space, C04; otherwise C08.) *)
   Definition sound (c : spec) : Prop :=
-    forall a b s s', good space n s -> good space n s' -> agree_out a b s s' -> passes_c c s ->
+    forall a b s s', 0 <= a -> a < b -> b <= n ->
+      good space n s -> good space n s' -> agree_out a b s s' -> passes_c c s ->
       match localize c (mkLoc a b 0) true s with
       | LSome c' => let c'' := reinit false c' s in
                     (enforced c'' = false -> passes_c c'' s') -> passes_c c s'
@@ -98,6 +99,40 @@ Section SolverD.
   Lemma span_multichoices : forall ms a b, choices_span ms = Some (a, b) -> multichoices ms <> [].
   Proof.
     intros ms a b H E. unfold choices_span in H. rewrite E in H. discriminate.
+  Qed.
+
+  (* the span of a localized space is a non-empty window inside the sequence *)
+  Lemma last_In_ne : forall (l : list choice) d, l <> [] -> In (last l d) l.
+  Proof.
+    induction l as [|x l IH]; intros d H; [congruence|].
+    destruct l as [|y l]; [left; reflexivity|].
+    right. change (In (last (y :: l) d) (y :: l)). apply IH. discriminate.
+  Qed.
+
+  Lemma span_in_range : forall la lb a b,
+    choices_span (ms_localized space la lb) = Some (a, b) -> 0 <= a /\ a < b /\ b <= n.
+  Proof.
+    intros la lb a b Hspan.
+    destruct (okspace_localized space n space_wf space_fits la lb) as ([W1 W2] & Hfit & _ & _).
+    set (ms := ms_localized space la lb) in *.
+    assert (Hss : StronglySorted ch_lt (multichoices ms))
+      by (unfold multichoices; apply b_ss_filter; exact W2).
+    assert (Hin0 : forall c, In c (multichoices ms) -> 0 <= cstart c < cend c /\ cend c <= n).
+    { intros c Hc. pose proof (multichoices_In _ _ Hc) as Hc'. split.
+      - rewrite Forall_forall in W1. destruct (W1 c Hc') as (Hw & _ & _). exact Hw.
+      - apply Hfit. exact Hc'. }
+    assert (Hpos : Forall (fun c => cstart c < cend c) (multichoices ms)).
+    { apply Forall_forall. intros c Hc. destruct (Hin0 c Hc) as [Hw _]. lia. }
+    unfold choices_span in Hspan.
+    destruct (multichoices ms) as [|c0 mc] eqn:E; [discriminate|].
+    assert (Ea : a = cstart c0) by (inversion Hspan; reflexivity).
+    assert (Eb : b = cend (last (c0 :: mc) c0)) by (inversion Hspan; reflexivity).
+    assert (H0 : In c0 (c0 :: mc)) by (left; reflexivity).
+    assert (Hl : In (last (c0 :: mc) c0) (c0 :: mc)) by (apply last_In_ne; discriminate).
+    pose proof (Hin0 _ H0) as [Hw0 _].
+    pose proof (b_ss_last (c0 :: mc) c0 c0 Hss Hpos H0) as Hb0.
+    pose proof (Hin0 _ Hl) as [_ Hfl]. rewrite <- Eb in Hfl, Hb0.
+    subst a. lia.
   Qed.
 
   (* what the checks establish, and that evaluations never touch the sequence *)
@@ -313,14 +348,15 @@ Section SolverD.
 
   (* ---- from the local constraints back to the original ones *)
   Lemma transfer : forall cs a b s0 s1 lcs los lsp,
+    0 <= a -> a < b -> b <= n ->
     (forall c, In c cs -> sound c) -> (forall c, In c cs -> passes_c c s0) ->
     good_ s0 -> good_ s1 -> agree_out a b s0 s1 ->
     localize_all spec localize cs (mkLoc a b 0) s0 = Some lcs ->
     ok_seq (mkLP spec None (map (fun c => reinit false c s0) lcs) los lsp) s1 ->
     forall c, In c cs -> passes_c c s1.
   Proof.
-    intros cs a b s0 s1 lcs los lsp Hsound Hpass Hg0 Hg1 Hag HLA Hok c Hc.
-    pose proof (Hsound c Hc a b s0 s1 Hg0 Hg1 Hag (Hpass c Hc)) as HS.
+    intros cs a b s0 s1 lcs los lsp Ha Hab Hb Hsound Hpass Hg0 Hg1 Hag HLA Hok c Hc.
+    pose proof (Hsound c Hc a b s0 s1 Ha Hab Hb Hg0 Hg1 Hag (Hpass c Hc)) as HS.
     pose proof (localize_all_spec _ _ _ _ HLA c Hc) as HL.
     destruct (localize c (mkLoc a b 0) true s0) as [|c'|].
     - exact HS.
@@ -367,7 +403,8 @@ Section SolverD.
       + apply assign_good; [exact Hg3 | exact (proj1 Hgl)].
       + simpl. destruct Hloc as [E | (Hg1 & Hag & Hok1)].
         * rewrite E. exact Hpass.
-        * eapply transfer; [exact Hsound | exact Hpass | exact (proj1 Hg) | exact Hg1 | exact Hag | exact ELA | exact Hok1].
+        * destruct (span_in_range (lstart l) (lend l) a b Espan) as (Ha & Hab & Hb).
+          eapply transfer; [exact Ha | exact Hab | exact Hb | exact Hsound | exact Hpass | exact (proj1 Hg) | exact Hg1 | exact Hag | exact ELA | exact Hok1].
   Qed.
 
   Lemma evaluate_cur : forall c st e st', evaluate spec ev c st = (e, st') -> cur _ st' = cur _ st.
